@@ -447,21 +447,40 @@ class NameConverter(ast.NodeTransformer):
         cn = node.func.id == self.call_next_sym
         tmp = f"__TMP{next(self.count)}_"
 
+        written = None
         if cn:
-            # call_next(x=e), where x names the next positional parameter, is
+            # call_next(x=e), where x names a positional parameter, is
             # call_next(e): the table is keyed by position
             args = list(node.args)
-            keywords = []
+            by_position = {}
             for kw in node.keywords:
                 positions = [
                     pos
                     for pos in self.analysis.name_to_positions.get(kw.arg, ())
                     if isinstance(pos, int)
                 ]
-                if positions == [len(args)] and not keywords:
-                    args.append(kw.value)
-                else:
-                    keywords.append(kw)
+                if len(positions) == 1:
+                    by_position[positions[0]] = kw
+            converted = []
+            while len(args) + len(converted) in by_position:
+                converted.append(by_position[len(args) + len(converted)])
+            keywords = [kw for kw in node.keywords if kw not in converted]
+            if node.keywords[: len(converted)] != converted:
+                # Python evaluates the arguments in the order they are
+                # written, which is not the order of the key any more
+                written = [
+                    *[(i, arg) for i, arg in enumerate(args)],
+                    *[
+                        (
+                            len(args) + converted.index(kw)
+                            if kw in converted
+                            else kw.arg,
+                            kw.value,
+                        )
+                        for kw in node.keywords
+                    ],
+                ]
+            args += [kw.value for kw in converted]
             node = ast.copy_location(
                 ast.Call(func=node.func, args=args, keywords=keywords), node
             )
@@ -473,10 +492,13 @@ class NameConverter(ast.NodeTransformer):
                 if self.analysis.lookup_for(key) is subtler_type
                 else "__PLAIN_TYPE"
             )
-            value = ast.NamedExpr(
-                target=ast.Name(id=f"{tmp}{key}", ctx=ast.Store()),
-                value=self.visit(arg),
-            )
+            if written is None:
+                value = ast.NamedExpr(
+                    target=ast.Name(id=f"{tmp}{key}", ctx=ast.Store()),
+                    value=self.visit(arg),
+                )
+            else:
+                value = ast.Name(id=f"{tmp}{key}", ctx=ast.Load())
             func = ast.Name(id=name, ctx=ast.Load())
             return ast.Call(
                 func=func,
@@ -503,12 +525,27 @@ class NameConverter(ast.NodeTransformer):
 
         if cn:
             type_parts.insert(0, ast.Name(id=self.code_mangled, ctx=ast.Load()))
+        index = ast.Tuple(elts=type_parts, ctx=ast.Load())
+        if written is not None:
+            # ((tmp_a := a, tmp_b := b, ...), key)[1]
+            evaluated = ast.Tuple(
+                elts=[
+                    ast.NamedExpr(
+                        target=ast.Name(id=f"{tmp}{key}", ctx=ast.Store()),
+                        value=self.visit(arg),
+                    )
+                    for key, arg in written
+                ],
+                ctx=ast.Load(),
+            )
+            index = ast.Subscript(
+                value=ast.Tuple(elts=[evaluated, index], ctx=ast.Load()),
+                slice=ast.Constant(value=1),
+                ctx=ast.Load(),
+            )
         method = ast.Subscript(
             value=ast.Name(id=self.map_mangled, ctx=ast.Load()),
-            slice=ast.Tuple(
-                elts=type_parts,
-                ctx=ast.Load(),
-            ),
+            slice=index,
             ctx=ast.Load(),
         )
         if self.analysis.is_method:
